@@ -218,3 +218,23 @@ Proof.
   - intros NR n. rewrite (view_of_same_subheap _ _ _ n (U i r Hi1 NR)). apply V0.
   - intros NR n. apply view_of_same_subheap. apply (U _ r' Hr' NR).
 Qed.
+
+(* siblings and the class, at operation level: two instances of the class at root ci created at any point, then ANY history of
+   operations / copies / instantiations: every root that receives no operation — the class itself, either sibling, anything
+   else — shows the same state at every depth (in particular instance.check.append / names / endogenous mutations never reach
+   the class or the sibling, and class-level list mutations never reach existing instances) *)
+Theorem siblings_independent_ops K s ci a1 a2 es :
+  roots_ok s -> event_ok (EInit ci a1) = true -> event_ok (EInit ci a2) = true -> forallb hevent_ok es = true ->
+  let s2 := run_events K s [EInit ci a1; EInit ci a2] in
+  roots_ok s2 /\ roots_ok (run_hevents K s2 es) /\
+  forall j rj n, nth_error (sroots s2) j = Some rj ->
+    (forall e, In e es -> hreceiver e <> Some j) ->
+    view n (sh (run_hevents K s2 es)) (VR rj) = view n (sh s2) (VR rj).
+Proof.
+  intros RO O1 O2 OK s2.
+  assert (OK2 : forallb event_ok [EInit ci a1; EInit ci a2] = true) by (cbn [forallb]; rewrite O1, O2; reflexivity).
+  destruct (history_independent K _ s RO OK2) as (RO2 & _ & _). fold s2 in RO2.
+  destruct (hhistory_independent K es s2 RO2 OK) as (RO3 & _ & U).
+  split; [exact RO2|]. split; [exact RO3|].
+  intros j rj n Hj NR. apply view_of_same_subheap. apply (U j rj Hj NR).
+Qed.
